@@ -21,6 +21,12 @@ CHECKS = {
             "to _Packet.decode / LAN.send (Trace_V2)",
             "In-model tamper enumeration; all single-bit flips, truncations, substitutions and random corruptions of authentic "
             "packets replayed into the real decoder (with the authentic packet decoded just before), outcome decided by TLC.", "5 C03"),
+    "C05": ("TLA+ LanV3Packet.tla: TLC checks encode/decode round trip for every payload length 0..300 (pad 0..15) and edge "
+            "counters and that every single-bit flip is an error, under a model cipher/tag (MC_V3); TLC judges real "
+            "_encode_encrypted_request / _process_packet / LAN.send bytes and results with EncPacketClause/V3Decode on "
+            "reference-evaluated AES-CBC/SHA-256 (Trace_V3)",
+            "Exhaustive in-model pad/size arithmetic; byte-exact conformance of the real V3 codec in both directions for all lengths, "
+            "keys and counters, and every single-bit flip of responses decided by TLC.", "5 C05"),
     "C10": ("TLA+ AcCommand.tla: TLC proves VendorDecode40 o SetStateBody = id on exhaustive per-field slices (MC_C10); "
             "TLC judges every 0x40 frame produced by the real apply() against the vendor layout (Trace_C10)",
             "Bounded-exhaustive model check of the layout plus TLC-judged frames from the real code for every field value, "
